@@ -1097,7 +1097,7 @@ var c01Trusts = []c01Trust{
 }
 
 // IdP metadata that publishes no usable signing key (an encryption key only / an empty signing descriptor): nothing may be accepted.
-var c01NoKeyTrusts = []c01Trust{{"metaenconly", nil}, {"metaemptysign", nil}}
+var c01NoKeyTrusts = []c01Trust{{"metaenconly", nil}, {"metaemptysign", nil}, {"verifier-rejecting", nil}}
 
 func rootsOf(t c01Trust) []*x509.Certificate {
 	var r []*x509.Certificate
@@ -1155,6 +1155,8 @@ func runC01(c *core.Ctx) {
 	for _, t := range append(append([]c01Trust{}, c01Trusts...), c01NoKeyTrusts...) {
 		sps[t.name] = harness.NewSP(harness.SPOpt{Trust: t.name})
 	}
+	// ordinary metadata, but the application installed its own SignatureVerifier, which refuses everything
+	sps["verifier-rejecting"].SignatureVerifier = c18Verifier{reject: true}
 	seen := map[string]bool{}
 	c.Note("operators", float64(0))
 
